@@ -718,6 +718,10 @@ def real_line(res, I, sections):
         return "exc:" + res[1]
     v, bad, _ = res
     line = render(v, I, sections)
+    if sections is PROP_SECTIONS.get("C14"):      # identity problems that concern the property's own tables
+        bad = [b for b in bad if "field" in b[0]]
+    elif sections is PROP_SECTIONS.get("C15"):
+        bad = [b for b in bad if b[0] in ("string-key", "unregistered-class-object", "class-mismatch", "class-key", "foreign-class-object")]
     if bad:
         line += "|bad=" + repr(sorted(set(map(repr, bad)))[:3])
     return line
@@ -784,8 +788,13 @@ def work(args):
 # every reference to that very field_id / method_id *inside the same DEX* (array receivers `[LC;->m`,
 # equal strings, other items with the same name and references from other DEX files keep their text).
 # Renames after create_xref() are a control: the relations stay, only the keys print the new name.
-# Not generated (behaviour of the unchanged code is itself defective or undefined there, see
-# HISTORY_PROBES): EncodedMethod.set_name between add and create_xref, ClassDefItem.set_name.
+# Method renames between add and create_xref are judged like field renames since
+# fixes/C13-method-hashes-current-names.diff (create_xref re-keys Analysis.__method_hashes from the current
+# names; before, the invoke of a renamed analysed method resolved to a fresh external stub: witness
+# corpus/C13/history-method-rename-between-add-and-xref.json).  Not generated: ClassDefItem.set_name
+# (Analysis.classes is keyed by the add()-time name, create_xref raises KeyError or misattributes; a rename of a
+# class also leaves EncodedField.get_class_name() stale, so no consistent expectation exists; see
+# fixes/optional-C13-classes-current-names.diff).
 
 def _ren_key(r):
     return (r["cls"], r["name"], r["type"]) if r["kind"] == "field" else (r["cls"], r["name"], r["ret"], tuple(r["params"]))
@@ -860,10 +869,7 @@ def gen_history(rng, prog, order):
             continue
         used.add(k)
         r = dict(it, new="ren%d_%s" % (n, it["name"].strip("<>")))
-        if it["kind"] == "field":
-            t = rng.choice(("before", "between", "between", "between", "after"))
-        else:
-            t = rng.choice(("before", "before", "after"))
+        t = rng.choice(("before", "between", "between", "between", "after"))
         r["when"] = ["at", rng.randrange(pos[it["dex"]], len(order))] if t == "between" else t
         out.append(r)
     return out
@@ -1179,41 +1185,6 @@ def reuse_work(args):
     return idx, reqs, real, fails, st
 
 
-# probes of histories the random stream does not generate; each is one fixed case with a precise key
-def history_probes():
-    def m(name, code):
-        return {"name": name, "ret": "V", "params": [], "static": 0, "code": code + [["return-void", None, []]]}
-    prog = [{"strings": [], "classes": [
-        {"name": "LA;", "fields": [], "methods": [m("m", [["invoke-virtual", ["m", "LB;", "n", "V", []]]])]},
-        {"name": "LB;", "fields": [], "methods": [m("n", [["invoke-virtual", ["m", "LB;", "n", "V", []]]])]}]}]
-    return [("method-renamed-between-add-and-xref", prog,
-             [{"kind": "method", "dex": 0, "cls": "LB;", "name": "n", "ret": "V", "params": [], "new": "nn", "when": ["at", 0]}])]
-
-
-def probe_work(args):
-    """C13 only: add -> EncodedMethod.set_name on a defined method invoked from its own DEX -> create_xref"""
-    from harness import xref_oracle as O
-    key, prog, renames = args
-    case = {"prog": prog, "order": [0], "history": renames, "probe": key}
-    out = history_run(prog, [0], renames)
-    if out[0] == "exc":
-        return [(case, "the analysis raises %s after a supported rename" % out[1], None, "a finished analysis", out[2])]
-    fl, (v, bad, fa), _ = out
-    e = O.expected(fl)
-    found = O.check_c13(e, v, bad)
-    if not found:
-        return []
-    r = renames[0]
-    k = (r["cls"], r["new"], desc_of(r["ret"], r["params"]))
-    # the recorded shape: the renamed method is still internal, but __method_hashes keeps its add()-time name, so the
-    # invoke of the new name got a second, external, entry with the same key; every relation is otherwise as expected
-    shape = (sorted(v["methods"]) == sorted(e["methods"] + [(k, 1)]) and v["callTo"] == e["callTo"] and v["callFrom"] == e["callFrom"]
-             and all(b[0] == "method-hash" and b[1] == k for b in bad))
-    what, _, rel, detail = found[0]
-    return [(case, "after add -> EncodedMethod.set_name -> create_xref an invoke of the renamed, analysed method resolves to a new external stub: "
-             + what, key if shape else None, rel, detail)]
-
-
 def load_corpus_full(prop):
     import json
     from harness.fw import VERIF
@@ -1341,7 +1312,7 @@ def run_property(ck, prop):
             if hh:
                 hcases.append(("hist:%d" % i, hp, od, hh))
         hres = pool.map(history_work, [(prop, i, p, od, hh) for i, (_, p, od, hh) in enumerate(hcases)], chunksize=8)
-        pres = pool.map(probe_work, history_probes(), chunksize=1) if prop == "C13" else []
+        pres = []
         nreuse = 0 if prop == "C16" else (2500 if big else 250)
         rcases = []
         for fn, cp in load_corpus_full(prop):
@@ -1414,6 +1385,17 @@ def run_property(ck, prop):
     model = [select(l, sections) for l in drv.ask(reqs)]
     ck.notes.append("wall: proof leg (incl. waiting for the build lock) %.0fs, real analysis + oracle %.0fs, model %.0fs"
                     % (t1 - t0, t2 - t1, _t.time() - t2))
+    if prop == "C15":       # of the class-level xref_to / xref_from tables only the class-usage entries are C15's (invokes: C13)
+        def usage_only(line):
+            parts = []
+            for sec in line.split("|"):
+                name, eq, body = sec.partition("=")
+                if name in ("clsTo", "clsFrom") and eq:
+                    body = ",".join(it for it in body.split(",") if it.split(":")[2:3] in (["28"], ["34"]))
+                parts.append(name + eq + body)
+            return "|".join(parts)
+        real = [usage_only(l) for l in real]
+        model = [usage_only(l) for l in model]
     ck.compare("xref-" + prop, ["%s [sections %s]" % (r, ",".join(sections)) if len(r) < 4000 else r[:4000] + "…" for r in reqs], real, model)
     for m in ck.corr_mismatch:
         for r, c in req2case.items():
